@@ -153,6 +153,32 @@ impl ElfLinker {
     /// at. Loads the Elf, all it's dependencies (DT_NEEDED), and then handles
     /// the supported relocations.
     pub fn load_elf(&mut self, filename: &Path, base_address: u64) -> Result<(), Error> {
+        // Load the Elf and everything it depends on first, so that every symbol is known when the
+        // relocations are processed (an Elf may refer to a symbol of a library loaded after it).
+        let mut newly_loaded = Vec::new();
+        self.load_elf_and_dependencies(filename, base_address, &mut newly_loaded)?;
+
+        if self.do_relocations {
+            for filename in newly_loaded {
+                match self.loaded[&filename].elf().header.e_machine {
+                    goblin::elf::header::EM_386 => self.relocations_x86(&filename)?,
+                    goblin::elf::header::EM_MIPS => self.relocations_mips(&filename)?,
+                    _ => return Err(Error::ElfLinkerRelocationsUnsupported),
+                }
+            }
+        }
+
+        Ok(())
+    }
+
+    /// Loads the Elf and, recursively, its dependencies, without processing relocations. The
+    /// names of the Elfs loaded are appended to `newly_loaded` in load order.
+    fn load_elf_and_dependencies(
+        &mut self,
+        filename: &Path,
+        base_address: u64,
+        newly_loaded: &mut Vec<String>,
+    ) -> Result<(), Error> {
         let path = self
             .ld_paths
             .as_ref()
@@ -184,6 +210,7 @@ impl ElfLinker {
         // Add this Elf to the loaded Elfs
         let filename = filename.file_name().unwrap().to_str().unwrap().to_string();
         self.loaded.insert(filename.clone(), elf);
+        newly_loaded.push(filename.clone());
 
         {
             let elf = &self.loaded[&filename];
@@ -205,7 +232,11 @@ impl ElfLinker {
                 .interpreter
                 .map(|s| s.to_string());
             if let Some(interpreter_filename) = interpreter_filename {
-                self.load_elf(Path::new(&interpreter_filename), DEFAULT_LIB_BASE)?;
+                self.load_elf_and_dependencies(
+                    Path::new(&interpreter_filename),
+                    DEFAULT_LIB_BASE,
+                    newly_loaded,
+                )?;
             }
         } else {
             // Ensure all shared objects we rely on are loaded
@@ -213,16 +244,12 @@ impl ElfLinker {
                 if !self.loaded.contains_key(&so_name) {
                     self.next_lib_address += LIB_BASE_STEP;
                     let next_lib_address = self.next_lib_address;
-                    self.load_elf(Path::new(&so_name), next_lib_address)?;
+                    self.load_elf_and_dependencies(
+                        Path::new(&so_name),
+                        next_lib_address,
+                        newly_loaded,
+                    )?;
                 }
-            }
-        }
-
-        if self.do_relocations {
-            match self.loaded[&filename].elf().header.e_machine {
-                goblin::elf::header::EM_386 => self.relocations_x86(&filename)?,
-                goblin::elf::header::EM_MIPS => self.relocations_mips(&filename)?,
-                _ => return Err(Error::ElfLinkerRelocationsUnsupported),
             }
         }
 
